@@ -241,7 +241,10 @@ func (ln *lane) reqOpen(o *owner, name string, access uint32, how int, previous 
 	}
 	req.seqOpIdx = 1
 	req.valid = req.probe == ""
-	if c.minor == 0 && !o.confirmed {
+	if c.minor == 0 && req.probe == "" {
+		// Every OPEN: the open-owner may be unconfirmed at the server
+		// without the client knowing (collected while idle and created
+		// afresh by this very request).
 		o.guard = req
 	}
 	var first nfsv4.NfsArgop4
